@@ -8,7 +8,7 @@ Model of `events/broadcaster/broadcaster.go` as a labelled transition system.
   lock) is one atomic step that requires `bc = none`;
 * `closed` (atomic.Bool) and `closeCh` are separate;
 * per subscriber: the 10-slot buffered channel (`buf`, FIFO), the value in the forwarder's hand,
-  the list already delivered to the user channel, `ctx` cancelled?, exit channel closed?, still in
+  the list already delivered to the user channel, `ctx` cancelled? (one context per `Subscribe` call, shared by all its channels), exit channel closed?, still in
   `eventChs`?, forwarder pc; ghost `joinedAt`, `missed`;
 * any number of callers: `Broadcast`/`Subscribe` callers wait in `waitB`/`waitS` until an internal
   step gives them the lock (the mutex is not FIFO: any waiter may win); `Close` callers are counted
@@ -38,7 +38,8 @@ structure Entry where
 
 structure Sub where
   id : Nat               -- eventCh.id, taken from the broadcaster's counter at subscribe time
-  tag : Nat
+  tag : Nat              -- harness-side identity of the channel
+  call : Nat             -- the Subscribe call (= its context) that registered it: tag of its first channel
   joinedAt : Nat
   buf : List Entry
   hand : Option Entry
@@ -53,8 +54,8 @@ structure Sub where
 /-- Everything pushed to this subscriber, oldest first. -/
 def Sub.seq (u : Sub) : List Entry := u.delivered ++ u.hand.toList ++ u.buf
 
-def Sub.new (id tag joinedAt : Nat) : Sub :=
-  { id, tag, joinedAt, buf := [], hand := none, delivered := [], cancelled := false,
+def Sub.new (id tag call joinedAt : Nat) : Sub :=
+  { id, tag, call, joinedAt, buf := [], hand := none, delivered := [], cancelled := false,
     exitClosed := false, inList := true, pc := .idle, missed := false }
 
 structure State where
@@ -69,7 +70,7 @@ structure State where
   retB : List (Nat × Bool)        -- finished (ticket, was logged), return not yet observed
   returnedT : List Nat            -- ghost: tickets of logged Broadcast calls that returned
   nextTag : Nat
-  waitS : List Nat                -- Subscribe calls waiting for the lock
+  waitS : List (Nat × Nat)        -- Subscribe calls waiting for the lock: (tag of the first channel, number of channels)
   retS : List Nat
   closeNew : Nat                  -- Close called, before the CAS
   closePre : Nat                  -- after the CAS, before passing the lock (fixed only)
@@ -86,8 +87,8 @@ inductive Label
   | bcCall (v : Nat) | bcAcquire (k : Nat)
   | bcPush | bcSkipExit | bcSkipClose | bcSkipGone | bcFinish
   | bcReturn (t : Nat)
-  | subCall | subAcquire (k : Nat) | subReturn (tag : Nat)
-  | cancel (i : Nat)
+  | subCall (n : Nat) | subAcquire (k j : Nat) | subReturn (tag : Nat)
+  | cancel (c : Nat)
   | fwdTake (i : Nat) | fwdDeliver (i : Nat) | fwdExitCtx (i : Nat) | fwdExitClose (i : Nat)
   | fwdCloseExit (i : Nat) | fwdRemove (i : Nat)
   | closeCall | closeCas | closeChClose | closePass | closeReturn
@@ -176,27 +177,45 @@ def bcReturn (s : State) (t : Nat) : Option State :=
     some { s with retB := s.retB.erase (t, false) }
   else none
 
-def subCall (s : State) : Option State :=
-  some { s with waitS := s.waitS ++ [s.nextTag], nextTag := s.nextTag + 1 }
+/-- `Subscribe(ctx, ch₁ … chₙ)` is called: the channels get the tags `nextTag … nextTag+n-1`. -/
+def subCall (s : State) (n : Nat) : Option State :=
+  some { s with waitS := s.waitS ++ [(s.nextTag, n)], nextTag := s.nextTag + n }
 
-def subAcquire (s : State) (k : Nat) : Option State :=
+/-- The subscribers registered by one `Subscribe` call for its first `j` channels. -/
+def newSubs (s : State) (t j : Nat) : List Sub :=
+  (List.range j).map (fun m => Sub.new (s.currentID + m) (t + m) t s.log.length)
+
+/-- `Subscribe` holds the lock and runs `subscribe(ctx, c)` for each channel; each of them reads
+`closed`.  With the repaired `Close` the CAS is not under the lock, so it may fall between two of
+these reads: the first `j` channels are registered, the others silently dropped.  That is one
+atomic step here, linearised at the CAS (nobody can look at `eventChs` or make a forwarder deliver
+before the lock is released): `j = n` if the broadcaster is open, `j = 0` if it is closed, and
+`j < n` only together with the CAS of a pending `Close` (`fixed` only — `Close` as found does its
+CAS under the lock). -/
+def subAcquire (v : Variant) (s : State) (k j : Nat) : Option State :=
   match s.bc, s.waitS[k]? with
-  | none, some h =>
+  | none, some (t, n) =>
     if s.closed then
-      some { s with waitS := s.waitS.eraseIdx k, retS := s.retS ++ [h] }
-    else
-      some { s with waitS := s.waitS.eraseIdx k, retS := s.retS ++ [h],
-                    subs := s.subs ++ [Sub.new s.currentID h s.log.length],
-                    currentID := s.currentID + 1 }
+      if j = 0 then some { s with waitS := s.waitS.eraseIdx k, retS := s.retS ++ [t] } else none
+    else if j = n then
+      some { s with waitS := s.waitS.eraseIdx k, retS := s.retS ++ [t],
+                    subs := s.subs ++ newSubs s t j, currentID := s.currentID + j }
+    else if j < n ∧ v = .fixed ∧ 0 < s.closeNew then
+      some { s with waitS := s.waitS.eraseIdx k, retS := s.retS ++ [t],
+                    subs := s.subs ++ newSubs s t j, currentID := s.currentID + j,
+                    closeNew := s.closeNew - 1, closePre := s.closePre + 1, closed := true }
+    else none
   | _, _ => none
 
 def subReturn (s : State) (h : Nat) : Option State :=
   if h ∈ s.retS then some { s with retS := s.retS.erase h } else none
 
-def cancel (s : State) (i : Nat) : Option State :=
-  match s.subs[i]? with
-  | some u => some (setSub s i { u with cancelled := true })
-  | none => none
+/-- The context passed to the `Subscribe` call `c` is cancelled: every subscriber it registered
+sees `ctx.Done()` closed. -/
+def cancelSub (c : Nat) (u : Sub) : Sub := if u.call = c then { u with cancelled := true } else u
+
+def cancel (s : State) (c : Nat) : Option State :=
+  some { s with subs := s.subs.map (cancelSub c) }
 
 def fwdTake (s : State) (i : Nat) : Option State :=
   match s.subs[i]? with
@@ -298,10 +317,10 @@ def step (v : Variant) (s : State) : Label → Option State
   | .bcSkipGone => bcSkipGone s
   | .bcFinish => bcFinish s
   | .bcReturn t => bcReturn s t
-  | .subCall => subCall s
-  | .subAcquire k => subAcquire s k
+  | .subCall n => subCall s n
+  | .subAcquire k j => subAcquire v s k j
   | .subReturn h => subReturn s h
-  | .cancel i => cancel s i
+  | .cancel c => cancel s c
   | .fwdTake i => fwdTake s i
   | .fwdDeliver i => fwdDeliver s i
   | .fwdExitCtx i => fwdExitCtx s i
@@ -317,7 +336,7 @@ def step (v : Variant) (s : State) : Label → Option State
 /-- Internal steps: everything that is neither an API call/return event, a context cancellation,
 nor a reader taking a value from its channel. -/
 def Label.internal : Label → Bool
-  | .bcCall _ | .bcReturn _ | .subCall | .subReturn _ | .cancel _ | .fwdDeliver _
+  | .bcCall _ | .bcReturn _ | .subCall _ | .subReturn _ | .cancel _ | .fwdDeliver _
   | .closeCall | .closeReturn => false
   | _ => true
 
@@ -352,7 +371,10 @@ def range (n : Nat) : List Nat := List.range n
 def tauCandidates (s : State) : List Label :=
   (range s.waitB.length).map .bcAcquire ++
   [.bcPush, .bcSkipExit, .bcSkipClose, .bcSkipGone, .bcFinish] ++
-  (range s.waitS.length).map .subAcquire ++
+  (range s.waitS.length).flatMap (fun k =>
+    match s.waitS[k]? with
+    | some (_, n) => (range (n + 1)).map (.subAcquire k)
+    | none => []) ++
   (range s.subs.length).flatMap (fun i =>
     [.fwdTake i, .fwdExitCtx i, .fwdExitClose i, .fwdCloseExit i, .fwdRemove i]) ++
   [.closeCas, .closeChClose, .closePass]
@@ -363,7 +385,7 @@ def taus (v : Variant) (s : State) : List Label :=
 /-! ### observable events -/
 
 inductive Obs
-  | bcall (v : Nat) | bacq (v : Nat) | bret (t : Nat) | scall | sret (tag : Nat) | cancel (tag : Nat)
+  | bcall (v : Nat) | bacq (v : Nat) | bret (t : Nat) | scall (n : Nat) | sret (tag : Nat) | cancel (tag : Nat)
   | recv (tag : Nat) (v : Nat) | ccall | cret
   deriving DecidableEq, Repr
 
@@ -375,12 +397,9 @@ def obsLabels (s : State) : Obs → List Label
       | some e => if e.val = v then some (.bcAcquire k) else none
       | none => none)
   | .bret t => [.bcReturn t]
-  | .scall => [.subCall]
+  | .scall n => [.subCall n]
   | .sret h => [.subReturn h]
-  | .cancel h => (range s.subs.length).filterMap (fun i =>
-      match s.subs[i]? with
-      | some u => if u.tag = h then some (.cancel i) else none
-      | none => none)
+  | .cancel h => [.cancel h]
   | .recv h v => (range s.subs.length).filterMap (fun i =>
       match s.subs[i]? with
       | some u => if u.tag = h ∧ (u.hand.map (·.val)) = some v then some (.fwdDeliver i) else none
